@@ -141,7 +141,7 @@ func deriveShaOf(v ssa.Value, listType string) bool {
 func c02(c *Ctx) {
 	p, r := c.P, c.R
 	r.Technique = "per-content-type must-pass-through (cut) checks on the history validator (cases enumerated from the switch on the key's selector), comparison-pair table for body/receipt roots, binding check of every network-sourced oracle result, and validation-before-store/return gating in the history network"
-	r.Explanation = "Decides: (R1) for each content-type case of the history validator (every case found must have a rule; unknown selectors must fail): header-by-hash - the proof validator is reached only after hash(decoded header) == key[1:] and success is exactly the proof validator's verdict for that header and that proof; header-by-number - likewise with header.Number == number decoded from the key; body - the header comes from the oracle for key[1:] and success is exactly the body validator's verdict for (content, that header); receipts - success is the receipt validator's verdict for (content, that header's ReceiptHash), the empty shortcut only under ReceiptHash == empty root and len(content) == 0; (R2) the body validator returns nil only after CalcUncleHash(uncles) == header.UncleHash, DeriveSha(transactions) == header.TxHash and DeriveSha(withdrawals) == header.WithdrawalsHash, the last skipped only when header.WithdrawalsHash == nil; the receipt validator only after DeriveSha(receipts) == the root it was given; (R3) every Oracle implementation that obtains its answer over the in-process RPC (network look-ups return unvalidated bytes) binds it before returning: header-by-hash results to the requested hash, summaries to a trusted root; (R4) in the history network every store Put and every success return that follows a network ContentLookup is reached only after ValidateContent(same key, same content) returned nil, and the offered-content loop stores only validated items; outside the history network no store write anywhere in the module takes its content from a network look-up without a ValidateContent gate (the store is trusted by the block getters and the offer filter). Not decided: collision resistance, correctness of DeriveSha/RLP/SSZ decoders, trailing or non-canonical bytes accepted by decoders, the whole rejected set."
+	r.Explanation = "Decides: (R1) for each content-type case of the history validator (every case found must have a rule; unknown selectors must fail): header-by-hash - the proof validator is reached only after hash(decoded header) == key[1:] and success is exactly the proof validator's verdict for that header and that proof; header-by-number - likewise with header.Number == number decoded from the key; body - the header comes from the oracle for key[1:] and success is exactly the body validator's verdict for (content, that header); receipts - success is the receipt validator's verdict for (content, that header's ReceiptHash), the empty shortcut only under ReceiptHash == empty root and len(content) == 0; (R2) the body validator returns nil only after CalcUncleHash(uncles) == header.UncleHash, DeriveSha(transactions) == header.TxHash and DeriveSha(withdrawals) == header.WithdrawalsHash, the last skipped only when header.WithdrawalsHash == nil; the receipt validator only after DeriveSha(receipts) == the root it was given; (R3) every Oracle implementation that obtains its answer over the in-process RPC (network look-ups return unvalidated bytes) binds it before returning: header-by-hash results to the requested hash, summaries to a trusted root; (R4) in the history network every store Put and every success return that follows a network ContentLookup is reached only after ValidateContent(same key, same content) returned nil, and the offered-content loop stores only validated items; outside the history network no store write anywhere in the module takes its content from a network look-up without a ValidateContent gate (the store is trusted by the block getters and the offer filter); the function that cuts a raw pre-merge proof into branches succeeds only for lengths that are a multiple of 32 (no padding of a truncated item). Not decided: collision resistance, correctness of DeriveSha/RLP/SSZ decoders, trailing or non-canonical bytes accepted by decoders, the whole rejected set."
 	r.Assumptions = []string{"go-ethereum types.Header.Hash, CalcUncleHash, DeriveSha", "a hash equal to the key's hash identifies the header (collision resistance)"}
 	r.Floor("R1.case", 8)
 	r.Floor("R2.body-roots", 3)
@@ -512,6 +512,7 @@ func c02(c *Ctx) {
 	}
 
 	c02NoUnvalidatedStore(c)
+	proofChunkerWholeWords(c, "R1.case")
 	// ---- R4 history network gating
 	hist := p.SSAPkg("history")
 	for _, fn := range p.ModuleFuncs() {
@@ -625,6 +626,40 @@ func c02NoUnvalidatedStore(c *Ctx) {
 		})
 	}
 	r.Check(nSites >= 5, "R4.validate-before-store", "store-write sites outside the history network", "-", fmt.Sprintf("%d store-write call sites inspected: none writes the result of a network look-up unvalidated", nSites), fmt.Sprintf("only %d store-write call sites found", nSites))
+}
+
+// proofChunkerWholeWords: the function that cuts a raw proof ([]byte) into 32-byte branches
+// succeeds only when the length is a multiple of 32. Padding a short last chunk makes a
+// truncated item decode to the genuine proof whenever the cut bytes were zero (the last branch
+// of every pre-merge proof is the length mix-in word, 30 zero bytes at its end).
+func proofChunkerWholeWords(c *Ctx, rule string) {
+	p, r := c.P, c.R
+	n := 0
+	for _, fn := range p.ModuleFuncs() {
+		if fn.Pkg != p.SSAPkg("validation") || fn.Parent() != nil || len(fn.Params) != 1 {
+			continue
+		}
+		sig := fn.Signature
+		if sig.Results().Len() != 2 || core.ErrResultIndex(sig) != 1 || sig.Results().At(0).Type().String() != "[][]byte" || sig.Params().At(0).Type().String() != "[]byte" {
+			continue
+		}
+		n++
+		in := fn.Params[0]
+		whole := core.AnyFact(func(f core.Fact) bool {
+			return core.CmpFact(f, func(op token.Token, x, y ssa.Value) bool {
+				k, isC := core.ConstInt(y)
+				bo, isBo := x.(*ssa.BinOp)
+				if !isC || !isBo || op != token.EQL || k != 0 || bo.Op != token.REM {
+					return false
+				}
+				m, isM := core.ConstInt(bo.Y)
+				return isM && m == 32 && core.IsLenOf(bo.X, func(v ssa.Value) bool { return v == ssa.Value(in) })
+			})
+		})
+		w := core.CutReach(core.CutSpec{Fn: fn, Cut: func(b *ssa.BasicBlock, i int) bool { return whole(core.EdgeFacts(b, i)) }, Target: core.SuccessTarget(fn, nil)})
+		r.Check(w == nil, rule, core.FuncName(fn)+" whole-words-only", p.Pos(fn.Pos()), "a raw proof is cut into branches only when its length is a multiple of 32", "a raw proof whose length is not a multiple of 32 is cut into branches all the same (a short last chunk is padded or dropped): an item with bytes cut off its end can decode to the genuine proof and is accepted under the key: "+p.PathString(w))
+	}
+	r.Check(n >= 1, rule, "raw-proof chunker", "-", fmt.Sprintf("%d chunker(s) inspected", n), "anchor-unresolved: the function cutting a raw proof into 32-byte branches")
 }
 
 // derivesSame: a derives from the same underlying value as b (e.g. both from one decode call).
